@@ -11,7 +11,9 @@ pub mod serde2026;
 pub mod backref;
 pub mod run;
 pub mod progs;
+pub mod refclvm;
 pub mod interp_oracles;
+pub mod costs;
 
 /// One request line `<KIND> <id> <args…>` ↦ reply body (without the id).
 pub fn run_request(kind: &str, args: &[&str]) -> String {
@@ -35,6 +37,9 @@ pub fn run_request(kind: &str, args: &[&str]) -> String {
         "RUN" => run::run_run(args),
         "OP" => run::run_op(args),
         "UNK" => run::run_unknown(args),
+        "REF" => refclvm::run(args),
+        "OPZ" => costs::run_opz(args),
+        "UNKZ" => costs::run_unkz(args),
         k if k.starts_with("PY") => pywheel::run(k, args),
         _ => "bad-request".to_string(),
     });
@@ -55,9 +60,12 @@ pub fn gen_stream(name: &str, seed: u64, n: usize, tier: &str) -> Vec<String> {
         "serde2026" | "intern" => serde2026::generate(name, &mut rng, n, tier),
         s if s.starts_with("backref_") => backref::generate(s, &mut rng, n, tier),
         "run" => progs::generate_run(&mut rng, n, tier, &["chia"], "any"),
+        "run_runtime" => progs::generate_run(&mut rng, n, tier, &["runtime"], "any"),
         "run_default" => progs::generate_run(&mut rng, n, tier, &["chia"], "default"),
         "op" => progs::generate_op(&mut rng, n, tier, None),
         "unknown" => progs::generate_unknown(&mut rng, n, tier),
+        "ref" => refclvm::generate(&mut rng, n, tier),
+        "costs_op" | "costs_unknown" => costs::generate(name, &mut rng, n, tier),
         s if s.starts_with("py") => pywheel::generate(s, &mut rng, n, tier),
         _ => panic!("unknown stream {name}"),
     }
@@ -73,7 +81,9 @@ pub fn run_oracle(name: &str, seed: u64, n: usize, tier: &str) -> util::OracleRe
         "classic" => classic::oracle(&mut rng, n, tier),
         "serde2026_roundtrip" | "serde2026_blobs" | "intern" => serde2026::oracle(name, &mut rng, n, tier),
         s if s.starts_with("backref_") => backref::oracle(s, &mut rng, n, tier),
+        "costs_vectors" | "unknown_rule" => costs::oracle(name, &mut rng, n, tier),
         "classic_big" => classic::oracle_big(&mut rng, n, tier),
+        "ref_vectors" | "ref_findings" => refclvm::oracle(name, &mut rng, n, tier),
         "classic_decoders" => classic::oracle_decoders(&mut rng, n, tier),
         "interp_guards" => interp_oracles::oracle_guards(&mut rng, n, tier),
         "interp_sha256tree" => interp_oracles::oracle_sha256tree(&mut rng, n, tier),
